@@ -17,7 +17,7 @@
   (`int()` accepts non-ASCII decimal digits), text that `split()` sees containing a UTF-8 encoded
   Unicode space.
 
-  Not modelled: the `nowrap=True` post-processing (property C10).
+  The `nowrap=True` (default) form over a history of calls: Model/C09Wrap.lean (seeded round 5).
 -/
 import PsutilModel.Base.Bytes
 import PsutilModel.Base.Dec
